@@ -141,8 +141,8 @@ func G1HashToPoint(m []byte) *bn256.G1 {
 // yParity calculates whether the provided Y coordinate is an even or odd
 // number. Returns 0x01 if Y is an even number and 0x00 if it's odd.
 func yParity(y *big.Int) byte {
-	arr := y.Bytes()
-	return arr[len(arr)-1] & 1
+	// Bit(0) is also defined for zero, whose byte representation is empty.
+	return byte(y.Bit(0))
 }
 
 // Compress compresses point by using X value and the parity bit of Y
@@ -232,6 +232,9 @@ func DecompressToG2(m []byte) (*bn256.G2, error) {
 	y2 := new(gfP2).pow(x, big.NewInt(3))
 	y2.add(y2, twistB)
 	y := sqrtGfP2(y2)
+	if y == nil {
+		return nil, errors.New("failed to decompress G2")
+	}
 
 	// Compare calculated Y parity with the original Y parity in the top bit of
 	// the compressed point. If it doesn't match, we know `Y1 + Y2 = P`, so we
@@ -276,11 +279,16 @@ func sqrtGfP2(x *gfP2) *gfP2 {
 
 	y := new(gfP2).pow(x, exp)
 
-	// Multiply y by hexRoot constant to find correct y.
-	for !x2y(x, y) {
+	// Multiply y by hexRoot constant to find correct y. hexRoot is a 16th
+	// root of unity: if no candidate matches within 16 steps, x is not a
+	// square in gfP2.
+	for i := 0; i < 16; i++ {
+		if x2y(x, y) {
+			return y
+		}
 		y.multiply(y, hexRoot)
 	}
-	return y
+	return nil
 }
 
 // pow returns gfP2 element to the power of the provided exponent.
